@@ -1209,6 +1209,17 @@ br_ssl_engine_recvrec_ack(br_ssl_engine_context *cc, size_t len)
 		case BR_SSL_CHANGE_CIPHER_SPEC:
 		case BR_SSL_ALERT:
 		case BR_SSL_HANDSHAKE:
+			/*
+			 * A handshake message received in application
+			 * data state starts a renegotiation: buffered
+			 * outgoing application data is flushed first (see
+			 * br_ssl_engine_renegotiate()).
+			 */
+			if (cc->record_type_in == BR_SSL_HANDSHAKE
+				&& cc->application_data == 1)
+			{
+				br_ssl_engine_flush(cc, 0);
+			}
 			jump_handshake(cc, 0);
 			break;
 		case BR_SSL_APPLICATION_DATA:
@@ -1270,6 +1281,13 @@ br_ssl_engine_renegotiate(br_ssl_engine_context *cc)
 	{
 		return 0;
 	}
+
+	/*
+	 * Buffered application data must leave as an application data
+	 * record before the handshake processor takes over the output
+	 * buffer (it would otherwise wait forever for that buffer).
+	 */
+	br_ssl_engine_flush(cc, 0);
 	jump_handshake(cc, 2);
 	return 1;
 }
